@@ -133,6 +133,7 @@ CMAX = {'u8': 2**8 - 1, 'u16': 2**16 - 1, 'u32': 2**32 - 1, 'u64': 2**64 - 1, 'u
 OPC = {
     'bloom': {'new': 0, 'ins': 2, 'q': 3, 'union': 4, 'clear': 5, 'clone': 6, 'obs': 7, 'len': 8, 'empty': 9},
     'mem': {},
+    'hset': {'new': 0, 'ins': 2, 'q': 3, 'union': 4, 'clear': 5, 'clone': 6, 'obs': 7},
     'sizing': {'bloom': 1, 'cms': 2, 'cuckoo4': 3, 'cuckoo8': 4},
     'cms': {'new': 0, 'add': 2, 'q': 3, 'merge': 4, 'clear': 5, 'clone': 6, 'obs': 7, 'empty': 9},
     'hll': {'new': 0, 'fromregs': 1, 'addh': 2, 'add': 3, 'merge': 4, 'clear': 5, 'clone': 6, 'regs': 7, 'empty': 9},
